@@ -123,7 +123,13 @@ class Cable:
         rhs = sum(rhs_terms)
         resid = np.abs(lhs @ v_new - rhs)
         scale = np.abs(lhs) @ np.abs(v_new) + sum(np.abs(t) for t in rhs_terms)
+        cond = np.linalg.cond(lhs, np.inf)
+        if scheme not in ("bwd_euler", "crank_nicolson"):
+            # explicit update: the rounding error of evaluating (Amat @ v) is bounded componentwise by
+            # eps * |Amat| |v| (not by eps * |Amat v|, which cancels for nearly uniform v): both this reference and
+            # the library carry it, amplified by dt/C. It plays the role of the condition number here.
+            scale = np.abs(v_new) + np.abs(v) + dt * (np.abs(Amat) @ np.abs(v)) / self.C + dt * np.abs(const_uA) / self.C
+            cond = max(1.0, float(np.max(scale)) / max(1.0, float(np.max(np.abs(v_new)))))
         with np.errstate(divide="ignore", invalid="ignore"):
             be = np.where(scale > 0, resid / scale, 0.0)
-        cond = np.linalg.cond(lhs, np.inf)
         return float(np.max(be)), float(cond)
